@@ -55,6 +55,12 @@ Pool ==
     With(Base, "env", E(FALSE, ("env::A" :> "1"))), With(Base, "env", E(FALSE, (":A" :> "1"))),
     \* nil versus empty containers INSIDE a matrix with named dimensions (the list shortcut of a simple matrix does not apply)
     With(Base, "matrix", "setup_os"), With(Base, "matrix", "setup_os_eadj"), With(Base, "matrix", "setup_os_erem"), With(Base, "matrix", "adj_base_erem"),
+    \* a pipeline variable whose value is EMPTY is a signed variable like any other: present-and-empty, absent, and another name
+    [Base EXCEPT !.penv = ("B" :> "")], [Base EXCEPT !.penv = ("C" :> "")], [Base EXCEPT !.penv = ("B" :> "") @@ ("C" :> "")],
+    \* an empty mapping, an empty list and null nested inside a plugin config are different configs
+    With(Base, "plugins", PL(FALSE, <<[src |-> "short", cfg |-> "nest_map"]>>)), With(Base, "plugins", PL(FALSE, <<[src |-> "short", cfg |-> "nest_list"]>>)),
+    With(Base, "plugins", PL(FALSE, <<[src |-> "short", cfg |-> "nest_null"]>>)), With(Base, "plugins", PL(FALSE, <<[src |-> "short", cfg |-> "nest_el_map"]>>)),
+    With(Base, "plugins", PL(FALSE, <<[src |-> "short", cfg |-> "nest_el_null"]>>)),
     \* the command is signed byte for byte: line-break spellings are different commands
     With(Base, "command", "echo hello\n"), With(Base, "command", "echo hello\r\n"), With(Base, "command", "echo hello\r"),
     With(Base, "command", "echo\nhello"), With(Base, "command", "echo\r\nhello"), With(Base, "command", "echo hello "), With(Base, "command", "echo  hello") }
